@@ -273,6 +273,39 @@ func randomSystemHistory(r *rand.Rand, nops int) []SysAct {
 	}
 	newCell := func() int { cells = append(cells, cellInfo{map[int]bool{len(cells) + 1: true}}); return len(cells) }
 	hintNames := []string{"d", "d1", ".", "q", "rand", "go", "pkg_d"}
+	if r.Intn(3) == 0 {
+		// templates: chains of clones (a clone of a clone of ...) that are extended, passed as operands to groups of other
+		// chains, and extended again behind the group:  tmpl.Clone().Clone().Call(arg.Clone().Clone()).Dot(x)
+		mk := func(extra int) int {
+			c := newCell()
+			h = append(h, SysAct{A: "NewId", N: fresh()})
+			for i := 0; i < extra; i++ {
+				h = append(h, SysAct{A: "AppDot", C: c, N: fresh()})
+			}
+			for i := 0; i < 1+r.Intn(3); i++ {
+				n := newCell()
+				for x := range cells[c-1].reach {
+					cells[n-1].reach[x] = true
+				}
+				h = append(h, SysAct{A: "Clone", C: c})
+				c = n
+				if r.Intn(2) == 0 {
+					h = append(h, SysAct{A: "AppDot", C: c, N: fresh()})
+				}
+			}
+			return c
+		}
+		outer := mk(r.Intn(3))
+		for k := 0; k < 1+r.Intn(2); k++ {
+			inner := mk(1 + r.Intn(5))
+			addReach(outer, inner)
+			h = append(h, SysAct{A: "AppGroup", C: outer, N: []string{"call", "index"}[r.Intn(2)], Refs: []int{inner}})
+			for i := 0; i < 1+r.Intn(3); i++ {
+				h = append(h, SysAct{A: "AppDot", C: outer, N: fresh()})
+			}
+		}
+		h = append(h, SysAct{A: "Plain", C: outer}, SysAct{A: "Frag", F: 1, C: outer})
+	}
 	for len(h) <= nops {
 		nc := len(cells)
 		f := 1 + r.Intn(nfiles)
